@@ -217,6 +217,8 @@ def explore_shard(mod, tier, seed, shard, nshards, hb, acc):
         import hypothesis
         from hypothesis import given
 
+        seen = [0]
+
         @hypothesis.seed(dseed)
         @hyp_settings(n)
         @given(strat)
@@ -225,6 +227,15 @@ def explore_shard(mod, tier, seed, shard, nshards, hb, acc):
             res = mod.judge(case)
             hb.end()
             acc.add(case, res, ['hyp', dseed, n])
+            seen[0] += 1
+            if seen[0] <= 25:
+                # replay files hold the JSON form of a case: it must judge
+                # the same (tuples become lists, keys become strings)
+                again = mod.judge(json.loads(json.dumps(case, default=str)))
+                if sorted(f['bucket'] for f in again.fails) != sorted(
+                        f['bucket'] for f in res.fails):
+                    raise HarnessError('case does not survive the JSON '
+                                       'round trip: %r' % (case,))
 
         run()
     # 3. extra engines (state machines, long-run measurements, fuzzers)
